@@ -22,6 +22,7 @@ Alphabet ==
     M({}, 7, 0, "none", ""), M({"opt"}, 9, 9, "none", ""),
     M({}, 8, 0, "hdap_other", ""), M({"opt"}, 8, 9, "rrs_other", "10.0.0.1"),
     M({"conn", "ack"}, 0, 0, "none", ""), M({"close", "ack"}, 0, 0, "none", ""),
+    M({"conn", "rej"}, 0, 0, "none", ""), M({"close", "rej"}, 0, 0, "none", ""),
     M({"hb", "ack"}, 0, 0, "none", ""), M({"conn", "opt"}, 3, 6, "none", ""),
     M({"ack", "opt"}, 5, 9, "rrs_req", "10.0.0.2"),
     Garbage }
